@@ -1042,6 +1042,18 @@ def rule_a11(F):
     return r
 
 
+def rule_a12(F):
+    """Matching Option/Result/Verdict inside the script agrees with Rust's view of the same value: a variant that no arm names
+    reaches the `_` arm (shared with C02.L10: the default case of the match switch is decided on distinct variants)."""
+    from . import c02
+    r = c02.rule_l10(F)
+    r.rule = "C05.A12"
+    r.desc = "a value of a variant no arm names reaches the `_` arm (match default decided on the number of distinct variants named)"
+    for v in r.violations:
+        v.rule = "C05.A12"
+    return r
+
+
 def rules(ctx):
     F = ctx["F"]
-    return [rule_a1(F), rule_a2(F), rule_a3(F), rule_a4(F), rule_a5(F), rule_a6(F), rule_a7(F), rule_a8(F), rule_a9(F), rule_a10(F), rule_a11(F)]
+    return [rule_a1(F), rule_a2(F), rule_a3(F), rule_a4(F), rule_a5(F), rule_a6(F), rule_a7(F), rule_a8(F), rule_a9(F), rule_a10(F), rule_a11(F), rule_a12(F)]
